@@ -14,7 +14,7 @@ RULE = ('generated inst-mode module: any mix of defined/imported memory, table a
         'instantiate B (bound to the same or to different imported objects), observe both. Oracle = interpreter store model: '
         'defined state disjoint, imported state shared exactly when the resolver handed out the same object. Non-trivial = '
         'module with an imported memory/table that has an active segment, overlapping segments, a global initialised from an '
-        'imported global, a start function, or a two-instance history; distinct by (module, history).')
+        'imported global, a start function, or a two-instance history; distinct by (module, history). Segment contents include bytes that mean something inside C literals and segments of boundary sizes (2^k, 32767, 65535 and multiples, hazard text around every multiple of 32767); one compile cell is strict -std=c89.')
 ASSUME = ['reference interpreter calibrated against the spec-suite expectations (data/elem/start/global/imports suites)',
           'segments are in bounds by construction']
 
